@@ -1,1 +1,206 @@
-//! Parameter-set generators (filled in with the scheme-level properties).
+//! Parameter-set generators and the per-case "world" (context + keys + tools).
+//! Everything is constructed, never filtered: a generated ParamSet is always accepted by HeContext
+//! (this is itself asserted — a rejected set is reported as a harness problem, not a violation).
+use crate::bigint::BigU;
+use crate::gen::words::*;
+use crate::refmath as rm;
+use heathcliff::*;
+use proptest::prelude::*;
+use serde::{Deserialize, Serialize};
+use std::sync::Arc;
+
+#[derive(Clone, Copy, Debug, PartialEq, Eq, Serialize, Deserialize)]
+pub enum Scheme { BFV, BGV, CKKS }
+impl Scheme {
+    pub fn to_lib(self) -> SchemeType { match self { Scheme::BFV => SchemeType::BFV, Scheme::BGV => SchemeType::BGV, Scheme::CKKS => SchemeType::CKKS } }
+    pub fn is_exact(self) -> bool { self != Scheme::CKKS }
+}
+
+#[derive(Clone, Debug, Serialize, Deserialize)]
+pub struct ParamSet {
+    pub scheme: Scheme,
+    pub logn: u32,
+    /// coefficient moduli in the order given to the library (the last one is the special prime unless `special_flag`)
+    pub moduli: Vec<u64>,
+    /// plain modulus (0 for CKKS)
+    pub t: u64,
+    pub expand_chain: bool,
+    /// EncryptionParameters::set_use_special_prime_for_encryption
+    pub special_flag: bool,
+    /// per-case entropy for the library's randomness (hook H2)
+    pub entropy: u64,
+}
+
+#[derive(Clone, Copy, Debug, PartialEq, Eq)]
+pub enum TKind { Any, BatchingOnly }
+
+#[derive(Clone, Debug)]
+pub struct ParamCfg {
+    pub schemes: Vec<Scheme>,
+    pub logn_lo: u32, pub logn_hi: u32,
+    /// weight the small degrees: probability (out of 16) of using logn in [logn_lo, logn_small]
+    pub logn_small: u32,
+    pub k_lo: usize, pub k_hi: usize,
+    pub bits_lo: u32, pub bits_hi: u32,
+    pub t_kind: TKind,
+    pub t_bits_lo: u32, pub t_bits_hi: u32,
+    /// force at least two moduli and no special flag (so that key switching is available)
+    pub need_keyswitching: bool,
+    pub allow_special_flag: bool,
+    pub always_expand: bool,
+}
+
+impl ParamCfg {
+    pub fn strategy(&self) -> BoxedStrategy<ParamSet> {
+        let cfg = self.clone();
+        let c2 = self.clone();
+        (0usize..cfg.schemes.len(), 0u8..16, cfg.logn_lo..=cfg.logn_hi, cfg.logn_lo..=cfg.logn_small.max(cfg.logn_lo),
+         proptest::collection::vec((cfg.bits_lo..=cfg.bits_hi, any::<u8>()), cfg.k_lo..=cfg.k_hi),
+         (any::<u8>(), cfg.t_bits_lo..=cfg.t_bits_hi, any::<u64>()), any::<[bool; 2]>(), any::<u64>(), 0u8..4)
+            .prop_map(move |(si, w, logn_any, logn_small, specs, (tsel, tbits, traw), flags, entropy, order)| {
+                let cfg = &c2;
+                let scheme = cfg.schemes[si];
+                let logn = if w < 13 { logn_small } else { logn_any };
+                let mut bits: Vec<u32> = specs.iter().map(|s| s.0.max(logn + 2)).collect();
+                match order { 0 => bits.sort(), 1 => { bits.sort(); bits.reverse(); } _ => {} }
+                let sels: Vec<u8> = specs.iter().map(|s| s.1).collect();
+                let moduli = ntt_primes_distinct(logn, &bits, &sels);
+                let special_flag = cfg.allow_special_flag && !cfg.need_keyswitching && flags[0] && entropy % 3 == 0;
+                // t is normally chosen below the first data level's modulus (all primes but the special one); in ~6% of
+                // the sets only below the full product, which exercises the 'next level invalid' branch of chain building
+                let data_primes = if moduli.len() >= 2 && !special_flag && (cfg.need_keyswitching || traw % 16 != 0) { &moduli[..moduli.len() - 1] } else { &moduli[..] };
+                let t = if scheme == Scheme::CKKS { 0 } else { pick_plain_modulus_for(cfg.t_kind, logn, tsel, tbits, traw, &moduli, data_primes) };
+                ParamSet { scheme, logn, moduli, t, expand_chain: cfg.always_expand || flags[1], special_flag, entropy }
+            }).boxed()
+    }
+}
+
+/// plain modulus of the requested kind, coprime to every q_i and smaller than Q (admissible by construction)
+pub fn pick_plain_modulus(kind: TKind, logn: u32, sel: u8, bits: u32, raw: u64, moduli: &[u64]) -> u64 {
+    pick_plain_modulus_for(kind, logn, sel, bits, raw, moduli, moduli)
+}
+/// `moduli`: all primes (t must be coprime to each); `bound`: primes whose product t must stay below
+pub fn pick_plain_modulus_for(kind: TKind, logn: u32, sel: u8, bits: u32, raw: u64, moduli: &[u64], bound: &[u64]) -> u64 {
+    let q = BigU::product(bound);
+    let qbits = q.bits() as u32;
+    // t must be < Q: keep at least one bit of room
+    let maxbits = bits.min(qbits.saturating_sub(1)).min(60).max(2);
+    let coprime = |t: u64| t >= 2 && moduli.iter().all(|&m| rm::gcd(m, t) == 1) && BigU::from_u64(t) < q;
+    let batching = |b: u32| -> Option<u64> {
+        // batching prime = 1 mod 2N, distinct from every q_i
+        let two_n = 2u64 << logn;
+        for bb in b.max(logn + 2)..=60.min(qbits.saturating_sub(1)).max(b.max(logn + 2)) {
+            let mut cands = if sel & 0x40 == 0 { rm::primes_desc(two_n, bb, 6) } else { rm::primes_asc(two_n, bb, 6) };
+            cands.retain(|p| coprime(*p));
+            if !cands.is_empty() { return Some(cands[(sel as usize >> 3) % cands.len()]); }
+        }
+        None
+    };
+    let kind_sel = if kind == TKind::BatchingOnly { 0 } else { sel % 8 };
+    let cand = match kind_sel {
+        0 | 1 | 2 => batching(maxbits),
+        3 => Some(1u64 << (maxbits - 1).max(1)),                       // power of two
+        4 => Some(((1u64 << (maxbits - 1)) + raw % (1u64 << (maxbits - 1))) | 1), // odd, usually composite
+        5 => { // larger than some q_i (no fast plain lift): just above the smallest modulus
+            let mn = *moduli.iter().min().unwrap();
+            Some(mn + 1 + raw % 5)
+        }
+        6 => Some(2 + raw % 2),                                        // tiny: 2 or 3
+        _ => { // just below Q when Q is small, else a large value of maxbits bits
+            match q.to_u64() { Some(qv) if qv <= (1u64 << 60) => Some(qv.saturating_sub(1 + raw % 3).max(2)), _ => Some(((1u64 << maxbits) - 1).saturating_sub(raw % 64).max(2)) }
+        }
+    };
+    let mut t = cand.unwrap_or(2);
+    if t >> 60 != 0 { t = (1u64 << 60) - 1; }
+    // repair towards admissibility deterministically
+    let mut guard = 0;
+    while !coprime(t) {
+        if t > 2 { t -= 1; } else { t = 2; break; }
+        guard += 1;
+        if guard > 200 { t = 2; break; }
+    }
+    if !coprime(t) {
+        // Q is tiny (e.g. a single 3-bit prime): fall back to the smallest admissible value
+        t = (2..64).find(|&c| coprime(c)).unwrap_or(2);
+    }
+    if kind == TKind::BatchingOnly && !(rm::is_prime(t) && (t - 1) % (2u64 << logn) == 0) {
+        // no batching prime fits below Q; caller must cope (checked by World::batching)
+    }
+    t
+}
+
+/// One level of the modulus chain as the oracle sees it.
+#[derive(Clone, Debug)]
+pub struct Level { pub parms_id: ParmsID, pub moduli: Vec<u64>, pub q: BigU, pub qbits: usize }
+
+pub struct World {
+    pub ps: ParamSet,
+    pub n: usize,
+    pub context: Arc<HeContext>,
+    pub keygen: KeyGenerator,
+    pub sk: SecretKey,
+    pub encryptor: Encryptor,
+    pub decryptor: Decryptor,
+    pub evaluator: Evaluator,
+    /// data levels from first (index 0) down to last
+    pub levels: Vec<Level>,
+    pub key_moduli: Vec<u64>,
+    pub batching: bool,
+}
+
+pub fn build_params(ps: &ParamSet) -> EncryptionParameters {
+    let moduli: Vec<Modulus> = ps.moduli.iter().map(|m| Modulus::new(*m)).collect();
+    let mut p = EncryptionParameters::new(ps.scheme.to_lib())
+        .set_poly_modulus_degree(1usize << ps.logn)
+        .set_coeff_modulus(&moduli);
+    if ps.scheme != Scheme::CKKS { p = p.set_plain_modulus_u64(ps.t); }
+    p.set_use_special_prime_for_encryption(ps.special_flag)
+}
+
+impl World {
+    /// Build context, keys and tools. The per-case entropy override (H2) is installed on this thread.
+    pub fn new(ps: &ParamSet) -> Result<World, String> {
+        heathcliff::verif_hooks::set_entropy_override(Some(ps.entropy));
+        let parms = build_params(ps);
+        let context = HeContext::new(parms, ps.expand_chain, SecurityLevel::None);
+        if !context.parameters_set() {
+            return Err(format!("generated parameter set rejected: {:?} ({:?})", context.key_context_data().map(|c| format!("{:?}", c.qualifiers().parameter_error)), ps));
+        }
+        let keygen = KeyGenerator::new(context.clone());
+        let sk = keygen.secret_key().clone();
+        let pk = keygen.create_public_key(false);
+        let encryptor = Encryptor::new(context.clone()).set_public_key(pk).set_secret_key(sk.clone());
+        let decryptor = Decryptor::new(context.clone(), sk.clone());
+        let evaluator = Evaluator::new(context.clone());
+        let mut levels = vec![];
+        let mut cd = context.first_context_data();
+        while let Some(c) = cd {
+            let moduli: Vec<u64> = c.parms().coeff_modulus().iter().map(|m| m.value()).collect();
+            let q = BigU::product(&moduli);
+            levels.push(Level { parms_id: *c.parms_id(), qbits: q.bits(), q, moduli });
+            cd = c.next_context_data();
+        }
+        let key_moduli = context.key_context_data().unwrap().parms().coeff_modulus().iter().map(|m| m.value()).collect();
+        let batching = ps.scheme != Scheme::CKKS && context.first_context_data().unwrap().qualifiers().using_batching;
+        Ok(World { ps: ps.clone(), n: 1usize << ps.logn, context, keygen, sk, encryptor, decryptor, evaluator, levels, key_moduli, batching })
+    }
+    pub fn t(&self) -> u64 { self.ps.t }
+    pub fn level_index(&self, id: &ParmsID) -> Option<usize> { self.levels.iter().position(|l| &l.parms_id == id) }
+    pub fn has_special_prime(&self) -> bool { self.context.using_keyswitching() }
+    /// the special prime P (last key-level modulus) when key switching is available
+    pub fn special_prime(&self) -> u64 { *self.key_moduli.last().unwrap() }
+    /// secret key in coefficient form as signed ternary values (oracle-side; uses the naive inverse NTT for small N)
+    pub fn secret_coeffs(&self) -> Vec<i8> {
+        let q0 = self.key_moduli[0];
+        let mut comp = self.sk.data()[..self.n].to_vec();
+        let cd = self.context.key_context_data().unwrap();
+        cd.small_ntt_tables()[0].inverse_ntt_negacyclic_harvey(&mut comp);
+        comp.iter().map(|&c| if c == 0 { 0 } else if c == 1 { 1 } else if c == q0 - 1 { -1 } else { 2 }).collect()
+    }
+}
+
+pub fn log2_big(x: &BigU) -> f64 {
+    if x.is_zero() { return f64::NEG_INFINITY; }
+    let b = x.bits();
+    if b <= 1000 { x.to_f64().log2() } else { let s = b - 900; x.shr(s).to_f64().log2() + s as f64 }
+}
